@@ -15,7 +15,7 @@ def C(quick, thorough=None):
 
 PROPS = {
     'C11': {'gens': ['c11'], 'translate': ['G:guards'], 'configs': C(['default', 'int64', 'builtins'], ALLCONF + ['builtins'])},
-    'C13': {'gens': ['c13'], 'configs': C(['default', 'int64'])},
+    'C13': {'gens': ['c13'], 'translate': ['S:seq'], 'configs': C(['default', 'int64'])},
     'C12': {'gens': ['c12'], 'translate': ['G:guards'], 'configs': C(['default', 'int64'])},
     'C01': {'gens': ['c01', 'c01p', 'c01q'], 'translate': ['G:guards', 'P:ecdsa', 'P:api'], 'configs': C(['default', 'int64'])},
     'C02': {'gens': ['c02', 'c02p'], 'translate': ['G:guards', 'P:schnorr'], 'configs': C(['default', 'int64'])},
